@@ -30,3 +30,19 @@ Theorem c17_no_panic_wrapped_iterator : forall e, iter_env e -> e_crash e = None
   chk_no_panic (c_trace (exec e (init progs) sched)) = true.
 Proof. exact iter_C17_no_panic. Qed.
 Print Assumptions c17_no_panic_wrapped_iterator.
+
+(** the main clause, at the level of whole runs: the run and the end of life of the model do not depend on the
+    overflow mode -- every source kind, every program, every schedule that does not wrap the counters *)
+From OCI.proofs Require Import ChkAll ModeIndep.
+Theorem c17_runs_mode_independent : forall e, src_env e -> forall progs, wf_progs progs -> forall sched,
+  nowrap (c_labels (exec e (init progs) sched)) ->
+  forall m, exec (with_mode e m) (init progs) sched = exec e (init progs) sched.
+Proof. exact exec_mode_independent. Qed.
+Print Assumptions c17_runs_mode_independent.
+
+Theorem c17_end_of_life_mode_independent : forall e, src_env e -> forall progs, wf_progs progs -> forall sched,
+  nowrap (c_labels (exec e (init progs) sched)) ->
+  forall m t f, final_step (with_mode e m) (exec (with_mode e m) (init progs) sched) t f =
+                final_step e (exec e (init progs) sched) t f.
+Proof. exact final_mode_independent. Qed.
+Print Assumptions c17_end_of_life_mode_independent.
